@@ -444,6 +444,9 @@ fn histories<B: BitmapSlice>(v: &Verdicts, what: &str, placed: &Placed, vs: &Vol
                 let mut state = labels(n);
                 placed.load(&state);
                 bm.reset();
+                // pages written since they were last cleared on purpose (soundness over the whole
+                // history: a clearing operation may not take other pages with it)
+                let mut owed: std::collections::BTreeSet<usize> = std::collections::BTreeSet::new();
                 for (step, h) in seq.iter().copied().enumerate() {
                     t += 1;
                     let tag = (i * 31 + j * 7 + k + step * 3) as u8 | 1;
@@ -475,6 +478,17 @@ fn histories<B: BitmapSlice>(v: &Verdicts, what: &str, placed: &Placed, vs: &Vol
                             }
                             HistOp::Mem(_) => unreachable!(),
                         };
+                        for q in &cleared {
+                            owed.remove(q);
+                        }
+                        if v.which == "C05" {
+                            let after = dirty_pages(bm);
+                            if let Some(q) = owed.iter().find(|q| !after.contains(q)) {
+                                let key = format!("{}/{}/history/written-page-cleared-by-an-unrelated-operation", v.which, what);
+                                let rp = if v.ctx.has_failed(&key) { serde_json::Value::Null } else { json!({"root": what, "len": n, "page_size": p, "history": seq.iter().map(|h| format!("{:?}", h)).collect::<Vec<_>>(), "failing_step": step}) };
+                                v.ctx.fail(&key, &format!("history {:?} step {} ({:?}): page {} was written earlier and not named by this operation, but is clean now (dirty before {:?}, after {:?})", seq, step, h, q, before, after), rp);
+                            }
+                        }
                         if v.which == "C16" {
                             let after = dirty_pages(bm);
                             let want: std::collections::BTreeSet<usize> = before.difference(&cleared).cloned().collect();
@@ -514,6 +528,18 @@ fn histories<B: BitmapSlice>(v: &Verdicts, what: &str, placed: &Placed, vs: &Vol
                             let written: Option<Vec<(usize, usize)>> = cand.map(|x| exp.written[x].clone());
                             let rp = || describe().2;
                             v.judge(what, &format!("history/{}", op.name()), p, npages, 0, &state, &after, &dirty_before, &dirty_after, written.as_deref(), &[], &rp);
+                            for i in 0..n {
+                                if after[i] != state[i] {
+                                    owed.insert(i / p);
+                                }
+                            }
+                            if v.which == "C05" {
+                                if let Some(q) = owed.iter().find(|q| !dirty_after.contains(q)) {
+                                    let key = format!("{}/{}/history/written-page-cleared-by-an-unrelated-operation", v.which, what);
+                                    let rpv = if v.ctx.has_failed(&key) { serde_json::Value::Null } else { rp() };
+                                    v.ctx.fail(&key, &format!("history {:?} step {}: page {} was written earlier in the history and never cleared on purpose, but is clean after {:?}", seq, step, q, op), rpv);
+                                }
+                            }
                             state = after;
                         }
                     }
@@ -545,6 +571,53 @@ fn part_large(v: &Verdicts, n: usize, p: usize, depth: usize) -> u64 {
     // SAFETY: placed outlives vs
     let vs = unsafe { VolatileSlice::with_bitmap(placed.ptr(), n, bm.slice_at(0), None) };
     histories(v, "slice/RefSlice-two-bitmap-words", &placed, &vs, &bm, p, depth)
+}
+
+/// Single transfers of 64 KiB .. 128 KiB+1 into a tracked container of 256 KiB (an
+/// implementation may split long copies, and must then account each piece where it lands).
+fn big_writes(v: &Verdicts, p: usize) -> u64 {
+    let n = 256 * 1024;
+    let pz = NonZeroUsize::new(p).unwrap();
+    let placed = Placed::new_large(n);
+    let bm = AtomicBitmap::new(n, pz);
+    // SAFETY: placed outlives vs
+    let vs = unsafe { VolatileSlice::with_bitmap(placed.ptr(), n, bm.slice_at(0), None) };
+    let what = "slice/RefSlice-256KiB";
+    let npages = bm.len();
+    let init = labels(n);
+    let mut t = 0u64;
+    for (off, len) in [(0usize, 65536usize), (7, 65537), (0x10007, 98304), (1, 131073), (0x20000 - 3, 65540), (p.max(2) - 1, 65536 + p)] {
+        let ops = [
+            Op::Write { off, len, mis: 1 },
+            Op::WriteSlice { off, len, mis: 0 },
+            Op::ReadFrom { off, count: len },
+            Op::ReadExactFrom { off, count: len },
+            Op::SliceCopyFrom { ty: Ty::U8, off, len, m: len },
+            Op::SliceCopyFrom { ty: Ty::U32, off, len: len / 4 * 4, m: len / 4 },
+            Op::ArrCopyFrom { ty: Ty::U64, off, n: len / 8, m: len / 8 },
+            Op::Read { off, len, mis: 0 },
+            Op::WriteTo { off, count: len },
+        ];
+        for (k, op) in ops.iter().enumerate() {
+            t += 1;
+            let tag = (k as u8) * 3 + 5;
+            placed.load(&init);
+            bm.reset();
+            let dirty_before = dirty_pages(&bm);
+            let exp = model_op(&init, placed.ptr() as usize, op, tag);
+            let describe = || (format!("{}/{}/{}", v.which, what, op.name()), format!("{:?}", op), json!({"root": what, "len": n, "page_size": p, "op": op.to_json()}));
+            if crate::crash::guarded(v.ctx, &describe, || run_op(&vs, op, tag)).is_none() {
+                continue;
+            }
+            let after = placed.contents();
+            let dirty_after = dirty_pages(&bm);
+            let cand = exp.mem.iter().position(|m| after == *m);
+            let written: Option<Vec<(usize, usize)>> = cand.map(|x| exp.written[x].clone());
+            let rp = || describe().2;
+            v.judge(what, &format!("big/{}", op.name()), p, npages, 0, &init, &after, &dirty_before, &dirty_after, written.as_deref(), &[], &rp);
+        }
+    }
+    t
 }
 
 fn part_a(v: &Verdicts, n: usize, p: usize, thorough: bool) -> u64 {
@@ -1045,7 +1118,7 @@ fn migration(ctx: &Ctx) -> (u64, u64) {
 pub fn run(prop: &'static str, tier: Tier, replay: Option<String>) -> i32 {
     let ctx = crate::new_ctx(prop, tier, "model_checking", &replay);
     let thorough = tier.thorough();
-    ctx.set_rule("E1, one enumeration judged by two oracles. (A) tracked VolatileSlices (plain RefSlice, RefSlice at a base offset, nested BaseSlice, ArcSlice, Option Some/None) of 16 and 24 bytes x page sizes {1,2,3,4,5,8,16,N+5} x every derivation chain of up to 2 (thorough 3) links (subslice, offset, split_at either half, get_slice, get_ref->to_slice, get_array_ref->to_slice / ref_at->to_slice; arguments from the boundary alphabet of the page size) x every write and read path of the container alphabet through the derived accessor x start bitmaps clean / checkerboard / all dirty; (B) one mmap region and (C) guest memory with two adjacent regions and a hole, page sizes as above: every route of the byte-access interface at every (address, length), descriptor reads through the real raw-fd adapter over interposed read(2) (full, short, failing after touching a prefix, EINTR), descriptor writes out of guest memory over interposed write(2) (full, short, EIO at once, ENOSPC after a prefix, EINTR, accepting nothing: nothing may be marked), accessors derived through the region/memory API, and write;reset;write histories; all histories of 3 (thorough 5) steps over an alphabet of 14 memory / reset / harvest / reset-range operations with memory and bitmap carried over (also on containers of 136 / 200 / 528 bytes whose bitmaps span two or three 64-page words, with writes and resets straddling the word boundary). C05: every byte that differs from the pre-operation snapshot must be dirty in the owning region's bitmap at the region's own offset; plus (E3) all interleavings of one tracked write (16 write paths, incl. the typed and the slice-to-slice copies) with one fetch-and-clear consumer that copies the reported pages - after a final pass the consumer's image must equal guest memory. C16: dirty-after == dirty-before U pages overlapping the bytes the reference model says were written, and in the histories a reset / reset-range / fetch-and-clear leaves exactly the other pages dirty and reports exactly what was dirty (a failing descriptor read may additionally mark its whole target). State = (memory contents, dirty set); every transition runs on the real objects.");
+    ctx.set_rule("E1, one enumeration judged by two oracles. (A) tracked VolatileSlices (plain RefSlice, RefSlice at a base offset, nested BaseSlice, ArcSlice, Option Some/None) of 16 and 24 bytes x page sizes {1,2,3,4,5,8,16,N+5} x every derivation chain of up to 2 (thorough 3) links (subslice, offset, split_at either half, get_slice, get_ref->to_slice, get_array_ref->to_slice / ref_at->to_slice; arguments from the boundary alphabet of the page size) x every write and read path of the container alphabet through the derived accessor x start bitmaps clean / checkerboard / all dirty; (B) one mmap region and (C) guest memory with two adjacent regions and a hole, page sizes as above: every route of the byte-access interface at every (address, length), descriptor reads through the real raw-fd adapter over interposed read(2) (full, short, failing after touching a prefix, EINTR), descriptor writes out of guest memory over interposed write(2) (full, short, EIO at once, ENOSPC after a prefix, EINTR, accepting nothing: nothing may be marked), accessors derived through the region/memory API, and write;reset;write histories; all histories of 3 (thorough 5) steps over an alphabet of 14 memory / reset / harvest / reset-range operations with memory and bitmap carried over (also on containers of 136 / 200 / 528 bytes whose bitmaps span two or three 64-page words, with writes and resets straddling the word boundary); single transfers of 64 KiB .. 128 KiB+1 through nine routes into a tracked container of 256 KiB with 4096- and 1000-byte pages. C05: every byte that differs from the pre-operation snapshot must be dirty in the owning region's bitmap at the region's own offset, and over a history a page that was written stays dirty until an operation that names it clears it; plus (E3) all interleavings of one tracked write (16 write paths, incl. the typed and the slice-to-slice copies) with one fetch-and-clear consumer that copies the reported pages - after a final pass the consumer's image must equal guest memory. C16: dirty-after == dirty-before U pages overlapping the bytes the reference model says were written, and in the histories a reset / reset-range / fetch-and-clear leaves exactly the other pages dirty and reports exactly what was dirty (a failing descriptor read may additionally mark its whole target). State = (memory contents, dirty set); every transition runs on the real objects.");
     ctx.assume("raw-pointer writes are exempt as documented; marks through a bare BaseSlice with wrapping offsets are outside both oracles");
     if ctx.replay_of.is_some() {
         println!("replay: the enumeration is deterministic; re-running the quick tier and reporting whether the recorded key fails again");
@@ -1067,6 +1140,12 @@ pub fn run(prop: &'static str, tier: Tier, replay: Option<String>) -> i32 {
                     total.fetch_add(t, std::sync::atomic::Ordering::Relaxed);
                 });
             }
+        }
+        for p in [4096usize, 1000] {
+            s.spawn(move || {
+                let t = big_writes(v, p);
+                total.fetch_add(t, std::sync::atomic::Ordering::Relaxed);
+            });
         }
         for (n, p) in [(136usize, 1usize), (200, 3), (66 * 8, 8)] {
             s.spawn(move || {
